@@ -59,6 +59,20 @@ var ufAxioms = map[string]func(app *Term) []*Term{
 	},
 }
 
+func init() {
+	for name := range lenAbstract {
+		name := name
+		ufAxioms["len."+name] = func(a *Term) []*Term {
+			x := a.Args[0]
+			if name == "deflate" {
+				return []*Term{Le(IntC(1), a)}
+			}
+			// encodings do not shrink, and only the empty string encodes to the empty string
+			return []*Term{Le(Len(x), a), Eq(Eq(a, IntC(0)), Eq(Len(x), IntC(0)))}
+		}
+	}
+}
+
 // SlowLog, when set, receives every query that took longer than 2 s.
 var SlowLog = os.Getenv("VRT_SLOWLOG")
 
